@@ -184,9 +184,10 @@ pub fn on_client_packet(w: &mut World, conn: usize, idx: usize, raw: &[u8]) {
         Packet::PingReq => {
             let k = keepalive_eff(w, conn);
             if k == Some(0) {
+                let stale = w.conns[conn].t_connack_consumed == Some(clock::now());
                 w.violate(
                     "C10",
-                    "ping-with-keepalive-0".into(),
+                    format!("ping-with-keepalive-0/{}", if stale { "replayed-right-after-connack" } else { "while-connected" }),
                     "PINGREQ sent although the effective keep-alive is 0".into(),
                 );
             }
@@ -385,7 +386,7 @@ fn connack_policy(w: &mut World, conn: usize, clean_start: bool, need_id: bool) 
             }
             3 => {
                 w.fault("connack_truncated_eof");
-                send_raw(w, conn, 0, vec![0x20, 0x03, 0x00], RxMeta::Garbage);
+                send_raw(w, conn, 0, vec![0x20, 0x03, 0x00], RxMeta::Partial);
                 w.schedule(0, Event::Close { conn });
             }
             4 => {
@@ -403,7 +404,7 @@ fn connack_policy(w: &mut World, conn: usize, clean_start: bool, need_id: bool) 
                 }
                 // make sure it is not accidentally a valid CONNACK prefix
                 g[0] = 0x00 | (g[0] & 0x0F);
-                send_raw(w, conn, 0, g, RxMeta::Garbage);
+                send_raw(w, conn, 0, g, RxMeta::Partial);
                 w.schedule(0, Event::Close { conn });
             }
             _ => {
@@ -446,16 +447,17 @@ fn connack_policy(w: &mut World, conn: usize, clean_start: bool, need_id: bool) 
     c.server_keepalive = None;
     c.assigned_id = None;
     let small = chance(w, t, 7, w.cfg.p_small_limits);
+    let benign = w.benign;
     let mut rm = None;
     let mut mps = None;
     let mut mq = None;
     let mut ska = None;
-    if small || w.cfg.profile == Profile::Quota {
+    if !benign && (small || w.cfg.profile == Profile::Quota) {
         if pick(w, t, 8, 3) != 0 || w.cfg.profile == Profile::Quota {
             rm = Some([1u16, 2, 3, 7, 8, 9, 65535, 2][pick(w, t, 9, 8) as usize]);
         }
     }
-    if small || w.cfg.profile == Profile::Limits {
+    if !benign && (small || w.cfg.profile == Profile::Limits) {
         if pick(w, t, 10, 2) == 1 {
             let opts: [u32; 12] = [2, 4, 5, 6, 7, 9, 16, 24, 40, 64, 200, 2000];
             mps = Some(opts[pick(w, t, 11, 12) as usize]);
@@ -464,7 +466,7 @@ fn connack_policy(w: &mut World, conn: usize, clean_start: bool, need_id: bool) 
             mq = Some(pick(w, t, 13, 2) as u8);
         }
     }
-    if w.cfg.profile == Profile::Timing || small {
+    if !benign && (w.cfg.profile == Profile::Timing || small) {
         if pick(w, t, 14, 3) == 1 {
             ska = Some([0u16, 1, 2, 3, 4, 5, 9, 10, 11, 30, 100, 65535][pick(w, t, 15, 12) as usize]);
         }
@@ -599,6 +601,13 @@ fn on_retained_class(w: &mut World, conn: usize, idx: usize, raw: &[u8], pkt: &P
             prop,
             format!("refused-request-on-wire/{rk}/{}", why),
             format!("request tag {tag} was refused with {why} but appears on the wire"),
+        );
+    }
+    if w.reqs[ri].must_refuse {
+        w.violate(
+            "C19",
+            format!("illegal-request-on-wire/{rk}"),
+            format!("request tag {tag} carries a property MQTT 5 forbids there, yet it was transmitted"),
         );
     }
     if w.reqs[ri].accept == Accept::Maybe {
@@ -802,9 +811,13 @@ fn on_retained_class(w: &mut World, conn: usize, idx: usize, raw: &[u8], pkt: &P
         if inflight > rmax {
             let resumed = if w.conns[conn].session_present { "resumed" } else { "fresh" };
             let via = if conn != w.reqs[ri].conn_issued { "replay" } else { "new" };
+            let rel = w.reqs.iter().any(|r| {
+                r.kind == ReqKind::Pub && r.qos == 2 && r.epoch == w.epoch && !r.invalidated && r.phase == Phase::Release && r.tx_by_conn.get(&conn).copied().unwrap_or(0) > 0
+            });
+            let rel = if rel { "with-qos2-awaiting-pubcomp" } else { "all-awaiting-first-ack" };
             w.violate(
                 "C06",
-                format!("receive-maximum-exceeded/{resumed}/{via}"),
+                format!("receive-maximum-exceeded/{resumed}/{via}/{rel}"),
                 format!(
                     "{} unresolved QoS>0 PUBLISH sent on connection {} whose Receive Maximum is {}",
                     inflight, conn, rmax
@@ -1008,6 +1021,7 @@ fn on_client_ack(w: &mut World, conn: usize, typ: u8, id: u16, reason: Option<u8
     if let Some(&(t, i, r)) = w.conns[conn].carry_acks.front() {
         if (t, i, r.unwrap_or(0)) == got {
             w.conns[conn].carry_acks.pop_front();
+            w.conns[conn].unflushed_acks.push_back((t, i, r));
             w.probe("owed_ack_resent_after_reconnect");
             matched = true;
         } else {
@@ -1016,7 +1030,9 @@ fn on_client_ack(w: &mut World, conn: usize, typ: u8, id: u16, reason: Option<u8
     }
     if !matched {
         match w.conns[conn].owed_acks.pop_front() {
-            Some((t, i, r)) if (t, i, r.unwrap_or(0)) == got => {}
+            Some((t, i, r)) if (t, i, r.unwrap_or(0)) == got => {
+                w.conns[conn].unflushed_acks.push_back((t, i, r));
+            }
             Some(other) => w.violate(
                 "C04",
                 format!("ack-order-or-content/{name}"),
@@ -1062,7 +1078,7 @@ pub fn on_packet_complete(w: &mut World, conn: usize, idx: usize, t: u64) {
             if k > 0 && w.app_waiting_since.is_some_and(|s| s <= last) {
                 let gap = t - last;
                 if gap > k as u64 * US_PER_S {
-                    let outstanding = w.conns[conn].pingreq_outstanding.is_some();
+                    let outstanding = w.conns[conn].outstanding_at_last_complete;
                     w.violate(
                         "C10",
                         format!(
@@ -1077,6 +1093,7 @@ pub fn on_packet_complete(w: &mut World, conn: usize, idx: usize, t: u64) {
         }
     }
     w.conns[conn].last_complete_t = Some(t);
+    w.conns[conn].outstanding_at_last_complete = is_ping || w.conns[conn].pingreq_outstanding.is_some();
     if is_ping {
         w.conns[conn].pingreq_outstanding = Some(t);
         w.conns[conn].ping_times.push(t);
@@ -1106,6 +1123,7 @@ pub fn on_client_consumed(w: &mut World, conn: usize, meta: RxMeta) {
             w.ever_success_connack = true;
             w.session_ambiguous = false;
             w.conns[conn].established = true;
+            w.conns[conn].t_connack_consumed = Some(clock::now());
             w.conns[conn].last_complete_t = Some(clock::now());
             if let Some(id) = w.conns[conn].assigned_id.clone() {
                 w.expected_client_id = id;
@@ -1261,6 +1279,9 @@ pub fn on_client_consumed(w: &mut World, conn: usize, meta: RxMeta) {
         }
         RxMeta::Garbage => {
             w.expect = Some(Expect::Invalid);
+        }
+        RxMeta::Partial => {
+            w.expect = Some(Expect::InvalidOrEof);
         }
     }
 }
